@@ -105,6 +105,16 @@ def trace_level():
     tgt["rootChanged"] = True
     r = rejected(ctx, "Trace_ConvertTable", "Trace_ConvertTable.cfg", bad)
     expect("ConvertTable: a refusal that changed the project is rejected", any(x["clause"].startswith("C17.") for x in r))
+    import roottable
+    before = len(ctx.rejects)
+    rt = roottable.stage(ctx, ("C14.", "crash"), tid0=1)
+    expect("RootTable: the 27 cells are accepted", len(ctx.rejects) == before, f"{len(rt['events'])} cells")
+    del ctx.rejects[before:]
+    bad = copy.deepcopy(rt["events"])
+    tgt = next(e for e in bad if e["seen"] == "above")
+    tgt["seen"] = "project"
+    r = rejected(ctx, "Trace_RootTable", "Trace_RootTable.cfg", bad)
+    expect("RootTable: another directory than the table's is rejected", any(x["clause"].startswith("C14.") for x in r))
     # --- repository-test traces (C15 footprint, C16 exit discipline, C05 matches)
     sev = suitetrace.collect(ctx)
     c15 = suitetrace.for_c15(sev, 1)
